@@ -46,7 +46,7 @@ Theorem takeoff_first_crossing : forall segs target,
       (forall c' s', In (c', s') pre -> forall u, 0 <= u <= 1 -> reval (zpoly s') u <> Q2R target) /\
       (forall u, 0 <= u < Q2R a -> reval (zpoly s) u <> Q2R target) /\ (0 <= a)%Q /\ (a <= b)%Q /\ (b <= 1)%Q
   end.
-Proof. exact Stats_Proofs.takeoff_first_crossing. Qed.
+Proof. exact (Stats_Proofs.takeoff_first_crossing RootCert_Proofs.first_root_sound'). Qed.
 Print Assumptions takeoff_first_crossing.
 
 (** infinity exactly for invalid parameters: negative or non-finite ascent,
